@@ -217,6 +217,16 @@ SUBCHECKS = [
     SubCheck("drawn_generated", evaluate_drawn, strategy=drawn_cases, examples=(2000, 12000), shards=(16, 16),
              floors={"graph_with_deg1": 30, "trimmed": 60, "deg1_traversed": 30, "fast": 40, "src:local": 40,
                      "src:user": 40}, rule=RULE, timeout=120.0),
+    SubCheck("long_messages_generated", evaluate_drawn,
+             enum=(lambda tier: 6 if tier == "quick" else 24,
+                   lambda i, tier: {"k": 2, "t": 1 + i % 2, "mask": ["1111111111111111", "0110100110010110",
+                                                                      "1111011111101111", "1011111111111101",
+                                                                      "1110111101111111", "0111111111111110"][i % 6],
+                                    "pick": i, "fast": False, "table": None,
+                                    "msgs": [format((1 << ([1700, 1800, 2100, 2600, 1705, 3400][i % 6] + 7 * (i // 6)))
+                                                    - 12345 - i, "b")]}),
+             shards=(6, 16), exhaustive_space="fixed family of 1,700..3,400-bit messages from every retained start "
+                                              "vertex of six order-2 generated graphs", rule=RULE, timeout=900.0),
 ]
 
 TECHNIQUE = ("enumeration of all order-2 generated graphs plus property-based testing (Hypothesis) on drawn masks and "
